@@ -5,6 +5,7 @@ from typing import List, Set
 from ..loader import AnalysisError, norm_stmt, walk_own
 from .common import calls_in, ret_deps_by_node
 from .common import check as ob
+from ..canon import Canon
 
 EXPLANATION = (
     'Decides: (a) the mass offset computed from the e / p / n entries of the formula is applied on every path that '
@@ -58,6 +59,7 @@ def particle_offset(ctx, rep, clause):
         ob(rep, 'USE', FQ, f"count of '{k}' is weighted with {const}", got.endswith(const), got,
            f"the '{k}' count is multiplied by `{got}`", f.loc(offset_node), clause)
     # every use of the offset: allowed control dependences
+    cf = Canon(f.node)
     uses = []
     def visit(block, tests: List[ast.AST]):
         for st in block:
@@ -74,14 +76,14 @@ def particle_offset(ctx, rep, clause):
                     if isinstance(sub, list) and sub and isinstance(sub[0], ast.stmt):
                         visit(sub, tests)
     visit(f.node.body, [])
-    ob(rep, 'USE', FQ, f'the particle offset `{offset_var}` is used', len(uses) >= 1, f'{len(uses)} use(s)',
+    ob(rep, 'USE', FQ, 'the particle offset is used', len(uses) >= 1, f'{len(uses)} use(s)',
        'the offset is computed and never used: e/p/n entries do not move the masses', f.loc(offset_node), clause)
     for st, tests in uses:
         foreign = set()
         for t in tests:
             names = {x.id for x in ast.walk(t) if isinstance(x, ast.Name)}
             foreign |= names - MODE_FLAGS - {offset_var}
-        under = ' / '.join(norm_stmt(t) for t in tests) or 'no test'
+        under = ' / '.join(_anon(cf, t) for t in tests) or 'no test'
         ob(rep, 'USE', FQ, f'use of the particle offset under [{under}] depends only on the output-mode switches',
            not foreign,
            'applied whenever masses are reported',
@@ -92,6 +94,16 @@ def particle_offset(ctx, rep, clause):
     reach = any(offset_var_in_deps(an, FQ, count_vars))
     ob(rep, 'USE', FQ, 'the particle counts reach the returned distribution', reach, 'in the slice of the return',
        'the returned masses do not depend on the particle entries', f.loc(), clause)
+
+
+def _anon(c: Canon, t) -> str:
+    """test text with every local spelled `_` (parameters keep their names)"""
+    import copy as _copy
+    t2 = _copy.deepcopy(t)
+    for x in ast.walk(t2):
+        if isinstance(x, ast.Name) and c.is_local(x.id):
+            x.id = '_'
+    return norm_stmt(t2)
 
 
 def offset_var_in_deps(an, fq, count_vars):
@@ -159,8 +171,9 @@ def table_selection(ctx, rep, clause):
        f.loc(sel) if sel is not None else f.loc(), clause)
     g = program.func(f'{ISO}:_scale_isotope_abundances')
     div = [n for n in walk_own(g.node) if isinstance(n, ast.If) and 'is_abundance_sum' in norm_stmt(n.test)]
-    ok = len(div) == 1 and 'abundance / total_abundance' in ' '.join(norm_stmt(s) for s in div[0].body) and \
-        not div[0].orelse
+    cg = Canon(g.node)
+    ok = len(div) == 1 and 'each(isotopes).1 / sum(' in ' '.join(cg.text(s) for s in div[0].body).replace('(sum(', 'sum(') \
+        and not div[0].orelse
     # the divisor is the sum over the very list that is normalised and returned
     tot_ok = False
     if div:
@@ -179,8 +192,9 @@ def table_selection(ctx, rep, clause):
        g.loc(), clause)
     ob(rep, 'SIB-table', g.fq, 'division by the total only under is_abundance_sum', ok, 'sum-normalisation is optional',
        'the sum normalisation is applied on the wrong branch', g.loc(), clause)
-    top = [norm_stmt(s) for s in g.node.body]
-    ok = any('abundance * distribution_abundance' in t for t in top)
+    top = [cg.text(s) for s in g.node.body]
+    ok = any('each(isotopes).1 * distribution_abundance' in t or 'distribution_abundance * each(isotopes).1' in t
+             for t in top)
     ob(rep, 'SIB-table', g.fq, 'every abundance is multiplied by distribution_abundance on both branches', ok,
        'unconditional scaling', 'the requested abundance is not applied unconditionally', g.loc(), clause)
 
